@@ -1915,14 +1915,15 @@ def _recover_task_level(ctx):
                     sg = sframe[0][3]
                     tids = z3.Select(I._elem_array(child, "id", z3.IntSort()), sg)
                     tst = z3.Select(I._elem_array(child, "status", I.typer.sort_of(("enum", WS))), sg)
-                    k1, k2 = z3.Int("tk1"), z3.Int("tk2")
-                    distinct = z3.ForAll([k1, k2], z3.Implies(k1 != k2, z3.Select(tids, k1) != z3.Select(tids, k2)))
-                    kk = fresh_int("tk")
-                    n_t = z3.Select(I.st.lists[child].length, sg)
-                    goals.append((f"push.{b.data['cls']}.task-status-{want}",
-                                  z3.Implies(z3.And(g, distinct, kk >= 0, kk < n_t, z3.Select(tids, kk) == tid.t), z3.Select(tst, kk) == status(I, want))))
-                    goals.append((f"push.{b.data['cls']}.task-exists",
-                                  z3.Implies(g, z3.Exists([kk], z3.And(kk >= 0, kk < n_t, z3.Select(tids, kk) == tid.t)))))
+                    cands = [(f[1] + (f[3],)) for f in frames if f[0] == child] + [p_ for p_ in I.st.index_terms.get(child, [])]
+                    tid_arr = I._elem_array(child, "id", z3.IntSort())
+                    tst_arr = I._elem_array(child, "status", I.typer.sort_of(("enum", WS)))
+                    disj = [z3.And(I._select(tid_arr, p_) == tid.t, I._select(tst_arr, p_) == status(I, want)) for p_ in cands if len(p_) == 2]
+                    kq = z3.Int("task_k")
+                    n_t = I._select(I.st.lists[child].length, (sframe[0][3],))
+                    ex_ = z3.Exists([kq], z3.And(kq >= 0, kq < n_t, I._select(tid_arr, (sframe[0][3], kq)) == tid.t,
+                                                 I._select(tst_arr, (sframe[0][3], kq)) == status(I, want)))
+                    goals.append((f"push.{b.data['cls']}.task-in-status-{want}", z3.Implies(g, z3.Or(ex_, *disj))))
                 goals.append((f"push.{b.data['cls']}.pending-was-checked-false",
                               z3.Implies(g, z3.Or(*[z3.And(I.ops.eq(q.data["args"][0], tid), z3.Not(q.data["result"])) for q in queries]) if queries else FALSE)))
     return goals
